@@ -183,6 +183,24 @@ def hook(rd, e, st, ctx):
             for ax, n in (('UnitX', 0), ('UnitY', 1), ('UnitZ', 2)):
                 if fq.endswith('::' + ax):
                     return [(sp.ImmutableMatrix(d[0], 1, lambda i, j: 1 if i == n else 0), st)]
+    if k == 'MCall' and e.get('m') == 'finished' and (e.get('cls') or '').startswith('Eigen::CommaInitializer<'):
+        # (Matrix() << a, b, c, ...).finished(): the scalar coefficients in row-major order
+        d = dims_of((e.get('cls') or '')[len('Eigen::CommaInitializer<'):])
+        items, n = [], strip_casts(e['obj'])
+        while n.get('k') == 'Op' and n.get('op') == ',' and len(n.get('args', [])) == 2:
+            items.append(n['args'][1])
+            n = strip_casts(n['args'][0])
+        if d is not None and n.get('k') == 'Op' and n.get('op') == '<<' and len(n.get('args', [])) == 2:
+            items.append(n['args'][1])
+            items.reverse()
+            if len(items) == d[0] * d[1]:
+                out = []
+                for (vals, s2) in rd.evs(items, st, ctx):
+                    if not all(isinstance(v, sp.Basic) and not isinstance(v, sp.MatrixBase) for v in vals):
+                        return NotImplemented
+                    out.append((sp.ImmutableMatrix(d[0], d[1], list(vals)), s2))
+                return out
+        return NotImplemented
     if k == 'MCall' and not e.get('inrepo') and e.get('m') in REGION_METHODS:
         out = []
         for (ov, s2) in rd.ev(e['obj'], st, ctx):
